@@ -367,12 +367,12 @@ pub fn tree_parent(x: u64) -> Option<u64> {
     match x {
         0x82 | 0x88 | 0x85 => Some(0x81), // A, A2, L1 under Root
         0x83 | 0x86 => Some(0x82),        // B, L2 under A
-        0x87 => Some(0x83),               // L3 under B
+        0x87 | 0x89 => Some(0x83),        // L3, C under B
         _ => None,
     }
 }
 pub fn tree_declared(x: u64) -> bool {
-    matches!(x, 0x81..=0x88 | 0xEC | 0xBF)
+    matches!(x, 0x81..=0x89 | 0xEC | 0xBF)
 }
 pub fn tree_global(x: u64) -> bool {
     x == 0xEC || x == 0xBF
